@@ -305,10 +305,31 @@ class StoreDriver(object):
                     rid = ids[e['id'] - 1]
                     try:
                         again = reader_factory().get_recording(rid) if self.config != 'memory' else writer.get_recording(rid)
-                        again.add_metadata({})
+                        added = py_meta(e['meta'])        # the entries added before the re-save (merged into the stored ones)
+                        again.add_metadata(added)
                         writer.save_recording(again)
+                        saved[e['id'] - 1][1].update(added)
                     except Exception as ex:  # noqa
                         mm('save', idx, 'saved again', repr(ex), 'saving a fetched recording again under its id failed')
+                elif k == 'failsave':
+                    from .values import UnsavableResult
+                    r = writer.create_new_recording(e['cat'])
+                    r.set_data('fine', {'value': 1})
+                    r.set_data('poison', {'value': UnsavableResult('v')})
+                    r.add_metadata({'k1': 'a'})
+                    try:
+                        writer.save_recording(r)
+                        mm('save', idx, 'an error', 'no error', 'saving a recording that cannot be serialised succeeded')
+                    except Exception:  # noqa  (expected: the cassette cannot store it)
+                        pass
+                    for fn, name in ((reader.get_recording, 'get_recording'), (reader.get_recording_metadata, 'get_recording_metadata')):
+                        try:
+                            got = fn(r.id)
+                            mm('unknown', idx, 'NoSuchRecording', got, '%s(%r) of a recording whose save failed' % (name, r.id))
+                        except pbexc.NoSuchRecording:
+                            pass
+                        except Exception as ex:  # noqa
+                            mm('unknown', idx, 'NoSuchRecording', repr(ex), '%s(%r) of a recording whose save failed' % (name, r.id))
                 elif k == 'getmeta':
                     rid = ids[e['id'] - 1]
                     data, pm = saved[e['id'] - 1]
@@ -317,6 +338,20 @@ class StoreDriver(object):
                         full = reader.get_recording(rid).get_metadata()
                         if not same_value(dict(alone), dict(full)) or not same_value(dict(alone), pm):
                             mm('roundtrip', idx, pm, (dict(alone), dict(full)), 'metadata fetched alone / with the recording / saved')
+                        else:
+                            # what a fetch hands out belongs to the caller: editing it changes nothing that is stored
+                            from .recbind import mutate_in_place
+                            try:
+                                for v in list(alone.values()):
+                                    mutate_in_place(v)
+                                alone['EDITED-BY-THE-CALLER'] = True
+                            except Exception:  # noqa  (an immutable mapping is fine too)
+                                pass
+                            for rd in (reader, reader_factory()):
+                                again = rd.get_recording_metadata(rid)
+                                if not same_value(dict(again), pm):
+                                    mm('aliasing', idx, pm, dict(again),
+                                       'metadata fetched again after the caller edited what an earlier fetch returned')
                     except Exception as ex:  # noqa
                         mm('roundtrip', idx, pm, repr(ex), 'metadata fetch failed')
                 elif k == 'unknown':
